@@ -1226,3 +1226,8 @@ mod tests {
         assert_eq!(again.row_count, stats.row_count);
     }
 }
+
+// Verification hook (/verif): contract proof harnesses; compiled only by `cargo kani`.
+#[cfg(kani)]
+#[path = "/verif/kani/parquet_stats.rs"]
+mod verif_kani;
